@@ -48,41 +48,67 @@ theorem Holds_upsert_add (b lk : Nat) (ts : List TxB) :
 
 /-! ### through the body -/
 
-/-- inside the block: every lock entry with this transaction's token is remembered by the wrapper of its
-backend, and its deadline is at most `T` ahead -/
-def LockInv (T : Nat) (w : FWorld) : Prop :=
-  ∃ tx, w.ctx = some tx ∧ ∀ b lk e, alLookup w.locks (b, lk) = some e → e.mine = true →
-    Holds tx.backs b lk ∧ ∃ d, e.dl = some d ∧ d ≤ w.now + T
+/-- the `unlock` of lock key `lk` on backend `b` was issued in this run (index ≥ `c0`) and made to fail -/
+def FU (cfg : Cfg) (c0 : Nat) (w : FWorld) (b lk : Nat) : Prop :=
+  ∃ i, c0 ≤ i ∧ i < w.counter ∧ cfg.fails i = true ∧ (⟨i, b, .unlock lk, true⟩ : Ev) ∈ w.log
 
-def RI (T : Nat) (w w' : FWorld) : Prop := LockInv T w → LockInv T w'
+/-- the loop of `_rollback` is the OLD one (`except Exception` only) and some `unlock` command issued in this run
+(index ≥ `c0`) was made to fail with an exception of BaseException kind -/
+def BU (cfg : Cfg) (c0 : Nat) (w : FWorld) : Prop :=
+  cfg.rbAll = false ∧ ∃ i b' lk', c0 ≤ i ∧ i < w.counter ∧ cfg.fails i = true ∧ cfg.base i = true ∧
+    (⟨i, b', .unlock lk', true⟩ : Ev) ∈ w.log
 
-theorem RI.pre (T : Nat) : Pre (RI T) := ⟨fun _ h => h, fun h1 h2 h => h2 (h1 h)⟩
+/-- the excuse of a lock entry that carries the transaction's token but is remembered by no wrapper any more: its own
+`unlock` — issued by an explicit `tx.commit()` / `tx.rollback()` of the body, which empties `_locks` before it unlocks — was
+made to fail (or, OLD loop only, `_rollback` was left early) -/
+def Exc (cfg : Cfg) (c0 : Nat) (w : FWorld) (b lk : Nat) : Prop := FU cfg c0 w b lk ∨ BU cfg c0 w
 
-theorem modB_RI (T : Nat) (b : Nat) {f : TxB → TxB} (hf : Good f) : Rel (RI T) (modB b f) := by
+theorem Exc.grow {cfg : Cfg} {c0 : Nat} {w w' : FWorld} {b lk : Nat} (h : Exc cfg c0 w b lk)
+    (hc : w.counter ≤ w'.counter) (hl : ∀ ev, ev ∈ w.log → ev ∈ w'.log) : Exc cfg c0 w' b lk := by
+  rcases h with ⟨i, h1, h2, h3, h4⟩ | ⟨ha, i, b', lk', h1, h2, h3, h4, h5⟩
+  · exact Or.inl ⟨i, h1, Nat.lt_of_lt_of_le h2 hc, h3, hl _ h4⟩
+  · exact Or.inr ⟨ha, i, b', lk', h1, Nat.lt_of_lt_of_le h2 hc, h3, h4, hl _ h5⟩
+
+/-- inside the block (that started at command `c0`): every lock entry with this transaction's token is remembered by the
+wrapper of its backend — or has the excuse that its own unlock was made to fail —, and its deadline is at most
+`timeout` ahead -/
+def LockInv (cfg : Cfg) (c0 : Nat) (w : FWorld) : Prop :=
+  c0 ≤ w.counter ∧ ∃ tx, w.ctx = some tx ∧ ∀ b lk e, alLookup w.locks (b, lk) = some e → e.mine = true →
+    (Holds tx.backs b lk ∨ Exc cfg c0 w b lk) ∧ ∃ d, e.dl = some d ∧ d ≤ w.now + cfg.timeout
+
+def RI (cfg : Cfg) (c0 : Nat) (w w' : FWorld) : Prop := LockInv cfg c0 w → LockInv cfg c0 w'
+
+theorem RI.pre (cfg : Cfg) (c0 : Nat) : Pre (RI cfg c0) := ⟨fun _ h => h, fun h1 h2 h => h2 (h1 h)⟩
+
+theorem modB_RI (cfg : Cfg) (c0 : Nat) (b : Nat) {f : TxB → TxB} (hf : Good f) : Rel (RI cfg c0) (modB b f) := by
   intro w hI
-  obtain ⟨tx, hc, h⟩ := hI
-  refine ⟨{ tx with backs := upsert b f tx.backs }, by simp [modB, modW, hc], fun b' lk e he hm => ?_⟩
+  obtain ⟨hc0, tx, hc, h⟩ := hI
+  refine ⟨hc0, { tx with backs := upsert b f tx.backs }, by simp [modB, modW, hc], fun b' lk e he hm => ?_⟩
   obtain ⟨hh, hd⟩ := h b' lk e he hm
-  exact ⟨Holds_upsert hf b hh, hd⟩
+  exact ⟨hh.imp (Holds_upsert hf b) id, hd⟩
 
 /-- the environment's move before a command keeps the invariant: it only removes foreign entries -/
-theorem LockInv_logged (T : Nat) (cfg : Cfg) (b : Nat) (c : BCmd) (w : FWorld) (hI : LockInv T w) :
-    LockInv T (logged cfg b c w) := by
-  obtain ⟨tx, hctx, h⟩ := hI
-  exact ⟨tx, hctx, fun b' lk e he hm => h b' lk e (logged_locks_sub _ _ _ _ _ _ he) hm⟩
+theorem LockInv_logged (cfg : Cfg) (c0 : Nat) (b : Nat) (c : BCmd) (w : FWorld) (hI : LockInv cfg c0 w) :
+    LockInv cfg c0 (logged cfg b c w) := by
+  obtain ⟨hc0, tx, hctx, h⟩ := hI
+  refine ⟨Nat.le_trans hc0 (Nat.le_succ _), tx, hctx, fun b' lk e he hm => ?_⟩
+  obtain ⟨hh, hd⟩ := h b' lk e (logged_locks_sub _ _ _ _ _ _ he) hm
+  exact ⟨hh.imp id fun hx => hx.grow (Nat.le_succ _) (fun ev hev => by simp [logged, hev]), hd⟩
 
 /-- a command other than `set_lock` keeps the invariant, failing or not -/
-theorem backendCmd_RI (T : Nat) (cfg : Cfg) (b : Nat) (c : BCmd) (hc : c.noLock) :
-    Rel (RI T) (backendCmd cfg b c) := by
+theorem backendCmd_RI (cfg : Cfg) (c0 : Nat) (b : Nat) (c : BCmd) (hc : c.noLock) :
+    Rel (RI cfg c0) (backendCmd cfg b c) := by
   intro w hI
   cases hf : cfg.fails w.counter
   · rw [backendCmd_ok cfg b c w hf]
-    obtain ⟨tx, hctx, h⟩ := LockInv_logged T cfg b c w hI
-    refine ⟨tx, by simp [applyCmd_ctx, hctx], fun b' lk e he hm => ?_⟩
+    obtain ⟨hc0, tx, hctx, h⟩ := LockInv_logged cfg c0 b c w hI
+    refine ⟨by rw [applyCmd_counter]; exact hc0, tx, by simp [applyCmd_ctx, hctx], fun b' lk e he hm => ?_⟩
     have he' := applyCmd_locks_shrink b c _ hc _ _ he
-    simpa [applyCmd_now] using h b' lk e he' hm
+    obtain ⟨hh, hd⟩ := h b' lk e he' hm
+    exact ⟨hh.imp id fun hx => hx.grow (by rw [applyCmd_counter]; exact Nat.le_refl _) (fun ev hev => by rw [applyCmd_log]; exact hev),
+      by simpa [applyCmd_now] using hd⟩
   · rw [backendCmd_fail cfg b c w hf]
-    exact LockInv_logged T cfg b c w hI
+    exact LockInv_logged cfg c0 b c w hI
 
 /-- `set_lock` either finds the key held and changes nothing, or writes an entry with this transaction's token
 and a deadline `ttl` ahead -/
@@ -98,18 +124,18 @@ theorem applyCmd_setLock (b lk ttl : Nat) (w : FWorld) :
     · exact Or.inr rfl
   · exact Or.inr rfl
 
-theorem adv_RI (T dt : Nat) : Rel (RI T) (modW fun w => { w with now := w.now + dt }) := by
+theorem adv_RI (cfg : Cfg) (c0 dt : Nat) : Rel (RI cfg c0) (modW fun w => { w with now := w.now + dt }) := by
   refine Rel.modW _ fun w hI => ?_
-  obtain ⟨tx, hc, h⟩ := hI
-  refine ⟨tx, hc, fun b lk e he hm => ?_⟩
+  obtain ⟨hc0, tx, hc, h⟩ := hI
+  refine ⟨hc0, tx, hc, fun b lk e he hm => ?_⟩
   obtain ⟨hh, d, hd1, hd2⟩ := h b lk e he hm
   exact ⟨hh, d, hd1, by simp only; omega⟩
 
 /-- the whole wait loop of `_lock_updates` keeps the invariant, whatever the environment releases meanwhile and
 however long the lock-steps take: the entry a successful `set_lock` writes is remembered at once -/
-theorem lockLoop_RI (cfg : Cfg) (b lk : Nat) (n : Nat) : Rel (RI cfg.timeout) (lockLoop cfg b lk n) := by
+theorem lockLoop_RI (cfg : Cfg) (c0 : Nat) (b lk : Nat) (n : Nat) : Rel (RI cfg c0) (lockLoop cfg b lk n) := by
   induction n with
-  | zero => exact Rel.throw (RI.pre _) _
+  | zero => exact Rel.throw (RI.pre _ _) _
   | succ n ih =>
     intro w hI
     unfold lockLoop
@@ -117,17 +143,17 @@ theorem lockLoop_RI (cfg : Cfg) (b lk : Nat) (n : Nat) : Rel (RI cfg.timeout) (l
     cases hf : cfg.fails w.counter
     · rw [backendCmd_ok cfg b _ w hf]
       simp only
-      have hI' := LockInv_logged cfg.timeout cfg b (.setLock lk cfg.timeout) w hI
+      have hI' := LockInv_logged cfg c0 b (.setLock lk cfg.timeout) w hI
       generalize logged cfg b (.setLock lk cfg.timeout) w = wl at hI' ⊢
       rcases applyCmd_setLock b lk cfg.timeout wl with hr | hr
       · -- the key is held (live): `set_lock` answered False; one lock-step, retry
         rw [hr]
         simp only [show ¬ (Reply.bool false = Reply.bool true) by decide, if_false]
-        exact ih _ (adv_RI cfg.timeout cfg.stepDt wl hI')
-      · obtain ⟨tx, hctx, h⟩ := hI'
+        exact ih _ (adv_RI cfg c0 cfg.stepDt wl hI')
+      · obtain ⟨hc0, tx, hctx, h⟩ := hI'
         rw [hr]
         simp only [if_true]
-        refine ⟨{ tx with backs := upsert b (fun t => { t with locks := t.locks ++ [lk] }) tx.backs },
+        refine ⟨hc0, { tx with backs := upsert b (fun t => { t with locks := t.locks ++ [lk] }) tx.backs },
           by simp [modB, modW, hctx], fun b' lk' e he hm => ?_⟩
         simp only [modB, modW, alLookup_put] at he
         split at he
@@ -136,114 +162,114 @@ theorem lockLoop_RI (cfg : Cfg) (b lk : Nat) (n : Nat) : Rel (RI cfg.timeout) (l
           obtain ⟨rfl, rfl⟩ := heq
           simp only [Option.some.injEq] at he
           subst he
-          exact ⟨Holds_upsert_add _ _ _, _, rfl, by simp [modB, modW]⟩
+          exact ⟨Or.inl (Holds_upsert_add _ _ _), _, rfl, by simp [modB, modW]⟩
         · obtain ⟨hh, d, hd1, hd2⟩ := h b' lk' e he hm
-          refine ⟨Holds_upsert (f := fun t => { t with locks := t.locks ++ [lk] })
-            (fun t => ⟨rfl, fun l hl => by simp [hl]⟩) b hh, d, hd1, ?_⟩
+          refine ⟨hh.imp (Holds_upsert (f := fun t => { t with locks := t.locks ++ [lk] })
+            (fun t => ⟨rfl, fun l hl => by simp [hl]⟩) b) id, d, hd1, ?_⟩
           simpa [modB, modW] using hd2
     · rw [backendCmd_fail cfg b _ w hf]
-      exact LockInv_logged _ cfg b _ w hI
+      exact LockInv_logged cfg c0 b _ w hI
 
 
 theorem good_keep {f : TxB → TxB} (h1 : ∀ t, (f t).bid = t.bid) (h2 : ∀ t, (f t).locks = t.locks) : Good f :=
   fun t => ⟨h1 t, fun lk h => by rw [h2 t]; exact h⟩
 
-theorem lockUpdates_RI (cfg : Cfg) (b k : Nat) : Rel (RI cfg.timeout) (lockUpdates cfg b k) := by
+theorem lockUpdates_RI (cfg : Cfg) (c0 : Nat) (b k : Nat) : Rel (RI cfg c0) (lockUpdates cfg b k) := by
   unfold lockUpdates
   simp only [bind_eq, pure_eq]
-  rel_steps (RI.pre cfg.timeout)
-  exact lockLoop_RI _ _ _ _
+  rel_steps (RI.pre cfg c0)
+  exact lockLoop_RI _ _ _ _ _
 
 /-- leaves of the `RI` proofs -/
 macro "ri_leaf" : tactic => `(tactic| first
-  | exact modB_RI _ _ (good_keep (fun _ => rfl) (fun _ => rfl))
+  | exact modB_RI _ _ _ (good_keep (fun _ => rfl) (fun _ => rfl))
   | exact backendCmd_RI _ _ _ _ (by trivial)
-  | exact lockLoop_RI _ _ _ _
-  | exact lockUpdates_RI _ _ _
+  | exact lockLoop_RI _ _ _ _ _
+  | exact lockUpdates_RI _ _ _ _
   | assumption)
 
-theorem wrap_RI (T b : Nat) : Rel (RI T) (wrap b) := modB_RI T b (good_keep (fun _ => rfl) (fun _ => rfl))
+theorem wrap_RI (cfg : Cfg) (c0 b : Nat) : Rel (RI cfg c0) (wrap b) := modB_RI cfg c0 b (good_keep (fun _ => rfl) (fun _ => rfl))
 
-theorem incrSeed_RI (cfg : Cfg) (b k : Nat) : Rel (RI cfg.timeout) (incrSeed cfg b k) := by
+theorem incrSeed_RI (cfg : Cfg) (c0 : Nat) (b k : Nat) : Rel (RI cfg c0) (incrSeed cfg b k) := by
   unfold incrSeed
   simp only [bind_eq, pure_eq]
-  rel_steps (RI.pre cfg.timeout)
+  rel_steps (RI.pre cfg c0)
   all_goals ri_leaf
 
-theorem txSet_RI (cfg : Cfg) (b k : Nat) (v : Int) (ttl : Option Nat) : Rel (RI cfg.timeout) (txSet cfg b k v ttl) := by
+theorem txSet_RI (cfg : Cfg) (c0 : Nat) (b k : Nat) (v : Int) (ttl : Option Nat) : Rel (RI cfg c0) (txSet cfg b k v ttl) := by
   unfold txSet
   simp only [bind_eq, pure_eq]
-  rel_steps (RI.pre cfg.timeout)
+  rel_steps (RI.pre cfg c0)
   all_goals ri_leaf
 
-theorem txIncr_RI (cfg : Cfg) (b k : Nat) (ttl : Option Nat) : Rel (RI cfg.timeout) (txIncr cfg b k ttl) := by
+theorem txIncr_RI (cfg : Cfg) (c0 : Nat) (b k : Nat) (ttl : Option Nat) : Rel (RI cfg c0) (txIncr cfg b k ttl) := by
   unfold txIncr
   simp only [bind_eq, pure_eq]
-  rel_steps (RI.pre cfg.timeout)
+  rel_steps (RI.pre cfg c0)
   all_goals ri_leaf
 
-theorem txGet_RI (cfg : Cfg) (b k : Nat) : Rel (RI cfg.timeout) (txGet cfg b k) := by
+theorem txGet_RI (cfg : Cfg) (c0 : Nat) (b k : Nat) : Rel (RI cfg c0) (txGet cfg b k) := by
   unfold txGet
   simp only [bind_eq, pure_eq]
-  rel_steps (RI.pre cfg.timeout)
+  rel_steps (RI.pre cfg c0)
   all_goals ri_leaf
 
-theorem txDelete_RI (cfg : Cfg) (b k : Nat) : Rel (RI cfg.timeout) (txDelete cfg b k) := by
+theorem txDelete_RI (cfg : Cfg) (c0 : Nat) (b k : Nat) : Rel (RI cfg c0) (txDelete cfg b k) := by
   unfold txDelete
   simp only [bind_eq, pure_eq]
-  rel_steps (RI.pre cfg.timeout)
+  rel_steps (RI.pre cfg c0)
   all_goals ri_leaf
 
-theorem lockAll_RI (cfg : Cfg) (b : Nat) (ks : List Nat) : Rel (RI cfg.timeout) (lockAll cfg b ks) := by
+theorem lockAll_RI (cfg : Cfg) (c0 : Nat) (b : Nat) (ks : List Nat) : Rel (RI cfg c0) (lockAll cfg b ks) := by
   induction ks with
-  | nil => exact Rel.pure (RI.pre _) _
+  | nil => exact Rel.pure (RI.pre _ _) _
   | cons k rest ih =>
     unfold lockAll
     simp only [bind_eq]
-    exact Rel.bind (RI.pre _) (lockUpdates_RI _ _ _) fun _ => ih
+    exact Rel.bind (RI.pre _ _) (lockUpdates_RI _ _ _ _) fun _ => ih
 
-theorem txSetMany_RI (cfg : Cfg) (b : Nat) (kvs : List (Nat × Int)) (ttl : Option Nat) :
-    Rel (RI cfg.timeout) (txSetMany cfg b kvs ttl) := by
+theorem txSetMany_RI (cfg : Cfg) (c0 : Nat) (b : Nat) (kvs : List (Nat × Int)) (ttl : Option Nat) :
+    Rel (RI cfg c0) (txSetMany cfg b kvs ttl) := by
   unfold txSetMany
   simp only [bind_eq, pure_eq]
-  rel_steps (RI.pre cfg.timeout)
-  all_goals first | exact wrap_RI _ _ | exact lockAll_RI _ _ _ | ri_leaf
+  rel_steps (RI.pre cfg c0)
+  all_goals first | exact wrap_RI _ _ _ | exact lockAll_RI _ _ _ _ | ri_leaf
 
-theorem txDelMany_RI (cfg : Cfg) (b : Nat) (ks : List Nat) : Rel (RI cfg.timeout) (txDelMany cfg b ks) := by
+theorem txDelMany_RI (cfg : Cfg) (c0 : Nat) (b : Nat) (ks : List Nat) : Rel (RI cfg c0) (txDelMany cfg b ks) := by
   unfold txDelMany
   simp only [bind_eq, pure_eq]
-  rel_steps (RI.pre cfg.timeout)
-  all_goals first | exact wrap_RI _ _ | exact lockAll_RI _ _ _ | ri_leaf
+  rel_steps (RI.pre cfg c0)
+  all_goals first | exact wrap_RI _ _ _ | exact lockAll_RI _ _ _ _ | ri_leaf
 
-theorem txExists_RI (cfg : Cfg) (b k : Nat) : Rel (RI cfg.timeout) (txExists cfg b k) := by
+theorem txExists_RI (cfg : Cfg) (c0 : Nat) (b k : Nat) : Rel (RI cfg c0) (txExists cfg b k) := by
   unfold txExists
   simp only [bind_eq, pure_eq]
-  rel_steps (RI.pre cfg.timeout)
+  rel_steps (RI.pre cfg c0)
   all_goals ri_leaf
 
-theorem txSetIf_RI (cfg : Cfg) (b k : Nat) (v : Int) (ttl : Option Nat) (ex : Bool) :
-    Rel (RI cfg.timeout) (txSetIf cfg b k v ttl ex) := by
+theorem txSetIf_RI (cfg : Cfg) (c0 : Nat) (b k : Nat) (v : Int) (ttl : Option Nat) (ex : Bool) :
+    Rel (RI cfg c0) (txSetIf cfg b k v ttl ex) := by
   unfold txSetIf
   simp only [bind_eq, pure_eq]
-  rel_steps (RI.pre cfg.timeout)
-  all_goals first | exact wrap_RI _ _ | exact txExists_RI _ _ _ | ri_leaf
+  rel_steps (RI.pre cfg c0)
+  all_goals first | exact wrap_RI _ _ _ | exact txExists_RI _ _ _ _ | ri_leaf
 
-theorem txExpire_RI (cfg : Cfg) (b k ttl : Nat) : Rel (RI cfg.timeout) (txExpire cfg b k ttl) := by
+theorem txExpire_RI (cfg : Cfg) (c0 : Nat) (b k ttl : Nat) : Rel (RI cfg c0) (txExpire cfg b k ttl) := by
   unfold txExpire
   simp only [bind_eq, pure_eq]
-  rel_steps (RI.pre cfg.timeout)
-  all_goals first | exact wrap_RI _ _ | ri_leaf
+  rel_steps (RI.pre cfg c0)
+  all_goals first | exact wrap_RI _ _ _ | ri_leaf
 
-theorem emit_RI (T : Nat) (r : Reply) : Rel (RI T) (emit r) := Rel.modW _ fun _ h => h
+theorem emit_RI (cfg : Cfg) (c0 : Nat) (r : Reply) : Rel (RI cfg c0) (emit r) := Rel.modW _ fun _ h => h
 
 /-- bumping / taking back the `_inner` of a context object has nothing to do with the locks -/
-theorem LockInv_putObj (T : Nat) (w : FWorld) (i : Nat) (v : CtxObj) (h : LockInv T w) : LockInv T (putObj w i v) := h
+theorem LockInv_putObj (cfg : Cfg) (c0 : Nat) (w : FWorld) (i : Nat) (v : CtxObj) (h : LockInv cfg c0 w) : LockInv cfg c0 (putObj w i v) := h
 
 /-- a nested block inside the transaction keeps the lock bookkeeping: its `__aexit__` only takes its `_inner` back -/
-theorem blockOn_RI (cfg : Cfg) (o : Option Nat) {inner : M Unit} (hin : Rel (RI cfg.timeout) inner) (hk : Rel RIn inner) :
-    Rel (RI cfg.timeout) (blockOn cfg o inner) := by
+theorem blockOn_RI (cfg : Cfg) (c0 : Nat) (o : Option Nat) {inner : M Unit} (hin : Rel (RI cfg c0) inner) (hk : Rel RInK inner) :
+    Rel (RI cfg c0) (blockOn cfg o inner) := by
   intro w hI
-  have hs : w.ctx.isSome = true := by obtain ⟨tx, hc, _⟩ := hI; rw [hc]; rfl
+  have hs : w.ctx.isSome = true := by obtain ⟨_, tx, hc, _⟩ := hI; rw [hc]; rfl
   obtain ⟨t, ht⟩ := Option.isSome_iff_exists.1 hs
   unfold blockOn
   cases o with
@@ -259,17 +285,17 @@ theorem blockOn_RI (cfg : Cfg) (o : Option Nat) {inner : M Unit} (hin : Rel (RI 
       simp [enterOn, ht]
     rw [he]
     generalize hw1 : putObj w i { objOf w i with inner := (objOf w i).inner + 1 } = w1
-    have hI1 : LockInv cfg.timeout w1 := by rw [← hw1]; exact LockInv_putObj _ _ _ _ hI
+    have hI1 : LockInv cfg c0 w1 := by rw [← hw1]; exact LockInv_putObj _ _ _ _ _ hI
     have ho1 : objOf w1 i = { objOf w i with inner := (objOf w i).inner + 1 } := by
       rw [← hw1, objOf_putObj, if_pos rfl]
     have hI2 := hin w1 hI1
-    obtain ⟨_, ho2, _⟩ := hk w1 (by obtain ⟨tx, hc, _⟩ := hI1; rw [hc]; rfl)
+    obtain ⟨_, ho2, _⟩ := hk w1 (by obtain ⟨_, tx, hc, _⟩ := hI1; rw [hc]; rfl)
     have hexit : ∀ exc, exitOn cfg (some i) true exc (inner w1).2 =
         (.ok (), putObj (inner w1).2 i { objOf (inner w1).2 i with inner := (objOf (inner w1).2 i).inner - 1 }) := by
       intro exc
       have : (objOf (inner w1).2 i).inner ≠ 0 := by rw [ho2 i, ho1]; simp
       simp only [exitOn, this, ne_eq, not_false_eq_true, if_true]
-    have hfin := LockInv_putObj cfg.timeout (inner w1).2 i
+    have hfin := LockInv_putObj cfg c0 (inner w1).2 i
       { objOf (inner w1).2 i with inner := (objOf (inner w1).2 i).inner - 1 } hI2
     generalize hp : inner w1 = p at hexit hfin
     obtain ⟨r, w2⟩ := p
@@ -277,30 +303,7 @@ theorem blockOn_RI (cfg : Cfg) (o : Option Nat) {inner : M Unit} (hin : Rel (RI 
     | ok a => simp only; rw [hexit false]; exact hfin
     | err e => simp only; rw [hexit true]; exact hfin
 
-mutual
-theorem bodyStep_RI (cfg : Cfg) : (c : BodyCmd) → Rel (RI cfg.timeout) (bodyStep cfg c)
-  | .set .. => by unfold bodyStep; exact Rel.bind (RI.pre _) (txSet_RI _ _ _ _ _) fun _ => emit_RI _ _
-  | .incr .. => by unfold bodyStep; exact Rel.bind (RI.pre _) (txIncr_RI _ _ _ _) fun _ => emit_RI _ _
-  | .get .. => by unfold bodyStep; exact Rel.bind (RI.pre _) (txGet_RI _ _ _) fun _ => emit_RI _ _
-  | .delete .. => by unfold bodyStep; exact Rel.bind (RI.pre _) (txDelete_RI _ _ _) fun _ => emit_RI _ _
-  | .adv _ => by unfold bodyStep; exact adv_RI _ _
-  | .raise => by unfold bodyStep; exact Rel.throw (RI.pre _) _
-  | .setMany .. => by unfold bodyStep; exact Rel.bind (RI.pre _) (txSetMany_RI _ _ _ _) fun _ => emit_RI _ _
-  | .delMany .. => by unfold bodyStep; exact Rel.bind (RI.pre _) (txDelMany_RI _ _ _) fun _ => emit_RI _ _
-  | .expire .. => by unfold bodyStep; exact Rel.bind (RI.pre _) (txExpire_RI _ _ _ _) fun _ => emit_RI _ _
-  | .setIf .. => by unfold bodyStep; exact Rel.bind (RI.pre _) (txSetIf_RI _ _ _ _ _ _) fun _ => emit_RI _ _
-  | .block o body => by unfold bodyStep; exact blockOn_RI cfg o (runBody_RI cfg body) (runBody_RIn cfg body)
-
-theorem runBody_RI (cfg : Cfg) : (body : List BodyCmd) → Rel (RI cfg.timeout) (runBody cfg body)
-  | [] => by unfold runBody; exact Rel.pure (RI.pre _) _
-  | c :: rest => by unfold runBody; exact Rel.bind (RI.pre _) (bodyStep_RI cfg c) fun _ => runBody_RI cfg rest
-end
-
 /-! ### on the way out -/
-
-/-- the `unlock` of lock key `lk` on backend `b` was issued in this run (index ≥ `c0`) and made to fail -/
-def FU (cfg : Cfg) (c0 : Nat) (w : FWorld) (b lk : Nat) : Prop :=
-  ∃ i, c0 ≤ i ∧ i < w.counter ∧ cfg.fails i = true ∧ (⟨i, b, .unlock lk, true⟩ : Ev) ∈ w.log
 
 /-- commit / rollback steps: counter and log grow, the clock stands, lock stores only lose entries -/
 def RExit (w w' : FWorld) : Prop :=
@@ -398,12 +401,6 @@ theorem mem_unlockOrder (uprio : List (Nat × Nat)) (b : Nat) (ls : List Nat) (l
   · exact Or.inl hp
   · exact Or.inr ⟨h, by simpa using hp⟩
 
-/-- the loop of `_rollback` is the OLD one (`except Exception` only) and some `unlock` command issued in this run
-(index ≥ `c0`) was made to fail with an exception of BaseException kind -/
-def BU (cfg : Cfg) (c0 : Nat) (w : FWorld) : Prop :=
-  cfg.rbAll = false ∧ ∃ i b' lk', c0 ≤ i ∧ i < w.counter ∧ cfg.fails i = true ∧ cfg.base i = true ∧
-    (⟨i, b', .unlock lk', true⟩ : Ev) ∈ w.log
-
 theorem BU.mono {cfg : Cfg} {c0 : Nat} {w w' : FWorld} (h : BU cfg c0 w) (hr : RExit w w') : BU cfg c0 w' := by
   obtain ⟨ha, i, b', lk', h1, h2, h3, h4, h5⟩ := h
   exact ⟨ha, i, b', lk', h1, Nat.lt_of_lt_of_le h2 hr.1, h3, h4, hr.2.1 _ h5⟩
@@ -422,7 +419,7 @@ theorem Covered.mono {cfg : Cfg} {c0 : Nat} {ts : List TxB} {w w' : FWorld} (h :
   · exact Or.inr (Or.inr (h1.mono hr))
 
 theorem unlockUpdates_RExit (cfg : Cfg) (t : TxB) : Rel RExit (unlockUpdates cfg t) :=
-  gatherUnlock_RExit _ _ _
+  fun w => gatherUnlock_RExit _ _ _ w
 
 /-- `_unlock_updates` of one wrapper discharges that wrapper -/
 theorem unlockUpdates_cov (cfg : Cfg) (c0 : Nat) (t : TxB) (ts : List TxB) (w : FWorld) (hc : c0 ≤ w.counter)
@@ -433,7 +430,7 @@ theorem unlockUpdates_cov (cfg : Cfg) (c0 : Nat) (t : TxB) (ts : List TxB) (w : 
   · obtain ⟨t', ht', hb, hl⟩ := h1
     rcases List.mem_cons.1 ht' with rfl | hmem
     · subst hb
-      rcases gatherUnlock_spec cfg c0 t'.bid _ w hc lk (mem_unlockOrder cfg.uprio t'.bid _ lk hl) with h2 | h2
+      rcases gatherUnlock_spec cfg c0 t'.bid _ w hc lk (mem_unlockOrder ((cfg.uprio.drop (unlocksSoFar w.log)).take t'.locks.length) t'.bid _ lk hl) with h2 | h2
       · have := h2 e he
         rw [hm] at this
         cases this
@@ -590,5 +587,75 @@ theorem commitLoop_cov (cfg : Cfg) (c0 : Nat) (ts : List TxB) (w : FWorld) (hc :
     rcases commitLoop_snd cfg t rest w with h' | h' <;> rw [h']
     · exact ih _ hc1 h1
     · exact rollbackList_cov cfg c0 rest _ hc1 h1
+
+/-! ### explicit `tx.commit()` / `tx.rollback()` in the body, and the body as a whole -/
+
+theorem Holds_nil (b lk : Nat) : ¬ Holds [] b lk := fun ⟨_, ht, _⟩ => by cases ht
+
+/-- after the wrappers have been run through commit / rollback (`Covered … []`) and emptied, the invariant holds again:
+whatever still carries the transaction's token has the excuse that its own unlock failed -/
+theorem LockInv_of_cov (cfg : Cfg) (c0 : Nat) (w w1 : FWorld) (hI : LockInv cfg c0 w) (hr : RExit w w1)
+    (hs : w1.ctx.isSome = true) (hcov : Covered cfg c0 [] w1) (f : Tx → Tx) :
+    LockInv cfg c0 { w1 with ctx := w1.ctx.map f } := by
+  obtain ⟨hc0, tx, hctx, h⟩ := hI
+  obtain ⟨tx1, htx1⟩ := Option.isSome_iff_exists.1 hs
+  refine ⟨Nat.le_trans hc0 hr.1, f tx1, by simp [htx1], fun b lk e he hm => ?_⟩
+  refine ⟨?_, ?_⟩
+  · rcases hcov b lk e he hm with h1 | h1
+    · exact absurd h1 (Holds_nil b lk)
+    · exact Or.inr h1
+  · obtain ⟨d, hd1, hd2⟩ := (h b lk e (hr.2.2.2 _ _ he) hm).2
+    exact ⟨d, hd1, by show d ≤ w1.now + cfg.timeout; rw [hr.2.2.1]; exact hd2⟩
+
+/-- `await tx.commit()` in the body: every wrapper's `_unlock_updates` ran; the locks it took are released or their own
+unlock was made to fail -/
+theorem txCommitNow_RI (cfg : Cfg) (c0 : Nat) : Rel (RI cfg c0) (txCommitNow cfg) := by
+  intro w hI
+  obtain ⟨hc0, tx, hctx, h⟩ := hI
+  unfold txCommitNow
+  simp only [hctx]
+  have hcov : Covered cfg c0 tx.backs w := fun b lk e he hm => (h b lk e he hm).1
+  have h1 := commitLoop_cov cfg c0 tx.backs w hc0 hcov
+  have hr := commitLoop_RExit cfg tx.backs w
+  have hk := (commitLoop_RK cfg tx.backs w).1
+  generalize commitLoop cfg tx.backs w = p at h1 hr hk
+  obtain ⟨r, w1⟩ := p
+  exact LockInv_of_cov cfg c0 w w1 ⟨hc0, tx, hctx, h⟩ hr (by rw [hk, hctx]; rfl) h1 _
+
+/-- `await tx.rollback()` in the body -/
+theorem txRollbackNow_RI (cfg : Cfg) (c0 : Nat) : Rel (RI cfg c0) (txRollbackNow cfg) := by
+  intro w hI
+  obtain ⟨hc0, tx, hctx, h⟩ := hI
+  unfold txRollbackNow
+  simp only [hctx]
+  have hcov : Covered cfg c0 tx.backs w := fun b lk e he hm => (h b lk e he hm).1
+  have h1 := rollbackList_cov cfg c0 tx.backs w hc0 hcov
+  have hr := rollbackList_RExit cfg tx.backs w
+  have hk := (rollbackList_RK cfg tx.backs w).1
+  rw [← txRollback_snd] at h1 hr hk
+  generalize txRollback cfg tx.backs w = p at h1 hr hk
+  obtain ⟨r, w1⟩ := p
+  exact LockInv_of_cov cfg c0 w w1 ⟨hc0, tx, hctx, h⟩ hr (by rw [hk, hctx]; rfl) h1 _
+
+mutual
+theorem bodyStep_RI (cfg : Cfg) (c0 : Nat) : (c : BodyCmd) → Rel (RI cfg c0) (bodyStep cfg c)
+  | .set .. => by unfold bodyStep; exact Rel.bind (RI.pre _ _) (txSet_RI _ _ _ _ _ _) fun _ => emit_RI _ _ _
+  | .incr .. => by unfold bodyStep; exact Rel.bind (RI.pre _ _) (txIncr_RI _ _ _ _ _) fun _ => emit_RI _ _ _
+  | .get .. => by unfold bodyStep; exact Rel.bind (RI.pre _ _) (txGet_RI _ _ _ _) fun _ => emit_RI _ _ _
+  | .delete .. => by unfold bodyStep; exact Rel.bind (RI.pre _ _) (txDelete_RI _ _ _ _) fun _ => emit_RI _ _ _
+  | .adv _ => by unfold bodyStep; exact adv_RI _ _ _
+  | .raise => by unfold bodyStep; exact Rel.throw (RI.pre _ _) _
+  | .setMany .. => by unfold bodyStep; exact Rel.bind (RI.pre _ _) (txSetMany_RI _ _ _ _ _) fun _ => emit_RI _ _ _
+  | .delMany .. => by unfold bodyStep; exact Rel.bind (RI.pre _ _) (txDelMany_RI _ _ _ _) fun _ => emit_RI _ _ _
+  | .expire .. => by unfold bodyStep; exact Rel.bind (RI.pre _ _) (txExpire_RI _ _ _ _ _) fun _ => emit_RI _ _ _
+  | .setIf .. => by unfold bodyStep; exact Rel.bind (RI.pre _ _) (txSetIf_RI _ _ _ _ _ _ _) fun _ => emit_RI _ _ _
+  | .block o body => by unfold bodyStep; exact blockOn_RI cfg c0 o (runBody_RI cfg c0 body) (runBody_RInK cfg body)
+  | .commit => by unfold bodyStep; exact txCommitNow_RI cfg c0
+  | .rollback => by unfold bodyStep; exact txRollbackNow_RI cfg c0
+
+theorem runBody_RI (cfg : Cfg) (c0 : Nat) : (body : List BodyCmd) → Rel (RI cfg c0) (runBody cfg body)
+  | [] => by unfold runBody; exact Rel.pure (RI.pre _ _) _
+  | c :: rest => by unfold runBody; exact Rel.bind (RI.pre _ _) (bodyStep_RI cfg c0 c) fun _ => runBody_RI cfg c0 rest
+end
 
 end CashewsVerif.TxFault
